@@ -104,15 +104,17 @@ def run_verus(file, timeout=600, rlimit=None):
     text = open(file).read()
     spans = function_spans(text)
     base = os.path.basename(file)
+    allerrs = []
     for m in re.finditer(r"(?:^|\n)error(?:\[[^\]]*\])?: ([^\n]+)\n\s*--> [^\n]*?%s:(\d+):(\d+)" % re.escape(base), se):
         msg, line = m.group(1), int(m.group(2))
         fn = next((n for (n, k, a, b) in spans if a <= line <= b), "?")
-        res["failed"].append({"fn": fn, "msg": msg, "line": line})
+        allerrs.append({"fn": fn, "msg": msg, "line": line})
     proof_errs = ("postcondition not satisfied", "assertion failed", "precondition not satisfied", "invariant not satisfied",
                   "possible arithmetic underflow/overflow", "possible division by zero", "decreases not satisfied",
                   "recommendation not met", "loop invariant", "bit shift", "index out of bounds")
+    res["failed"] = [f for f in allerrs if any(p in f["msg"] for p in proof_errs)]
     if not res["ok"]:
-        hard = [f for f in res["failed"] if not any(p in f["msg"] for p in proof_errs)]
+        hard = [f for f in allerrs if not any(p in f["msg"] for p in proof_errs)]
         if vr.get("encountered-vir-error") or vr.get("encountered-error") and not res["failed"]:
             res["undecided"] = "verus front-end error: " + (hard[0]["msg"] if hard else se[-300:])
         elif hard and all("rlimit" in f["msg"] or "Resource limit" in f["msg"] for f in hard):
